@@ -8,7 +8,7 @@ Alpha == <<
   Recv_(1, 1, 1, 0, Pa), Recv_(1, 1, 2, 0, PEmpty), Recv_(2, 0, 1, 0, Pa), Recv_(2, 0, 2, 0, PEmpty),
   Recv_(3, 0, 0, 6, Pa), Recv_(3, 0, 1, 0, Pa), Recv_(3, 0, 2, 0, PEmpty), Recv_(3, 255, 4, 0, PEmpty),
   Recv_(3, 255, 3, 0, P57), Recv_(3, 255, 3, 11, Pa), Recv_(3, 255, 3, 12, Pa), Recv_(3, 255, 3, 21, PEmpty),
-  Recv_(3, 255, 3, 22, P1), Recv_(3, 255, 3, 32, PEmpty), Recv_(4, 0, 1, 0, Pa),
+  Recv_(3, 255, 3, 22, P1), Recv_(3, 255, 3, 22, Px), Recv_(3, 255, 3, 32, PEmpty), Recv_(4, 0, 1, 0, Pa),
   Recv_(1, 0, 1, 0, Pa),                                                         \* a message that succeeds
   Recv_(3, 255, 0, 17, P20), Recv_(1, 255, 0, 17, P20), Recv_(2, 255, 0, 17, P20), Recv_(4, 255, 0, 17, P20),
   Recv_(1, 1, 0, 6, Pa), Recv_(2, 0, 0, 6, Pa),                                  \* child presentations
